@@ -10,6 +10,7 @@ func init() {
 			r("B1", RuleB1),
 			r("N2", RuleN2),
 			r("U1", RuleU1),
+			r("IX1", RuleIX1),
 			r("X1", RuleX1),
 			r("P1", RuleP1),
 			r("P2", RuleP2),
